@@ -51,6 +51,8 @@ type Report struct {
 	Feasible    map[string]int `json:"feasible_exits"`
 	WallS       float64        `json:"wall_s"`
 	NamedObls   int            `json:"named_obligations"`
+	Canaries    int            `json:"canaries"`
+	CanariesOK  int            `json:"canaries_failed_as_expected"`
 }
 
 type FailedOb struct {
@@ -81,6 +83,7 @@ func main() {
 	dump := flag.String("dump", "", "directory for failed queries")
 	out := flag.String("out", "", "write JSON report here")
 	verbose := flag.Bool("v", false, "verbose")
+	seed := flag.Int("seed", 0, "solver random seed")
 	flag.Parse()
 	t0 := time.Now()
 	if *cfile == "" {
@@ -189,7 +192,7 @@ func main() {
 		}
 	}
 	rep.Paths = x.npaths
-	x.solveAll(sel, solveCfg{timeoutS: *timeout, jobs: *jobs, all: *all, dumpDir: *dump})
+	x.solveAll(sel, solveCfg{timeoutS: *timeout, jobs: *jobs, all: *all, dumpDir: *dump, seed: *seed})
 	// aggregate by obligation name
 	type agg struct {
 		n, ok int
@@ -200,6 +203,15 @@ func main() {
 		if o.Kind == "feasible" {
 			if o.Status == "feasible" {
 				feasibleReturn[o.Func]++
+			}
+			continue
+		}
+		if o.Kind == "canary" {
+			rep.Canaries++
+			if o.Status == "proved" {
+				x.errorf("%s: vacuity guard: the canary obligation `false` was PROVED (contradictory hypotheses)", o.Func)
+			} else {
+				rep.CanariesOK++
 			}
 			continue
 		}
